@@ -122,6 +122,7 @@ struct Reply {
     raw: Vec<u8>,
     pieces: Vec<usize>,
     pause_ms: u64,
+    close: bool,
 }
 struct Mock {
     port: u16,
@@ -208,6 +209,10 @@ async fn start_mock(replies: Vec<Reply>, default_reply: Option<Reply>) -> Mock {
                         return;
                     }
                     let _ = s.flush().await;
+                    if reply.close {
+                        let _ = s.shutdown().await;
+                        return;
+                    }
                 }
             });
         }
@@ -219,6 +224,7 @@ fn reply_of(v: &Value) -> Reply {
         raw: bytes_of(v, "reply"),
         pieces: v.get("pieces").and_then(|p| p.as_array()).map(|a| a.iter().filter_map(|x| x.as_u64()).map(|x| x as usize).collect()).unwrap_or_default(),
         pause_ms: v.get("pause_ms").and_then(|x| x.as_u64()).unwrap_or(30),
+        close: v.get("close").and_then(|x| x.as_bool()).unwrap_or(false),
     }
 }
 
@@ -461,6 +467,46 @@ async fn run_case(v: Value, scratch: &PathBuf) -> Value {
             json!({"id": id, "op": op, "task_finished_early": finished, "task_panicked": panicked, "polls": polls, "seen": seen,
                    "status_message_b64": msg.map(|m| b64e(m.as_bytes())), "publish_ok": publish.is_some(),
                    "panics": take_panics()})
+        }
+        "xml" => {
+            let text = String::from_utf8(bytes_of(&v, "text")).expect("xml: text must be UTF-8");
+            let r = std::panic::catch_unwind(move || gpa::common::helpers::xml_escape(text));
+            json!({"id": id, "op": op, "panicked": r.is_err(), "out_b64": r.ok().map(|o| b64e(o.as_bytes())), "panics": take_panics()})
+        }
+        "tel" => {
+            // a telemetry event as the event reader builds it: message and names are caller / host controlled
+            let msg = String::from_utf8(bytes_of(&v, "msg")).expect("tel: msg must be UTF-8");
+            let name = String::from_utf8(bytes_of(&v, "name")).expect("tel: name must be UTF-8");
+            let r = std::panic::catch_unwind(move || {
+                let ev = proxy_agent_shared::telemetry::Event::new("Informational".to_string(), msg, name.clone(), name.clone());
+                let meta = gpa::telemetry::event_reader::VmMetaData {
+                    container_id: name.clone(), tenant_name: name.clone(), role_name: name.clone(), role_instance_name: name.clone(),
+                    subscription_id: name.clone(), resource_group_name: name.clone(), vm_id: name.clone(), image_origin: 3,
+                };
+                let mut data = gpa::telemetry::telemetry_event::TelemetryData::new();
+                data.add_event(gpa::telemetry::telemetry_event::TelemetryEvent::from_event_log(&ev, meta));
+                data.to_xml()
+            });
+            json!({"id": id, "op": op, "panicked": r.is_err(), "xml_len": r.as_ref().map(|x| x.len()).unwrap_or(0), "panics": take_panics()})
+        }
+        "prov" => {
+            // provisioning time-up with a hostile key-keeper status message: provision_timeup ->
+            // write_provision_state (awaited inline by the key-keeper loop)
+            let msg = String::from_utf8(bytes_of(&v, "msg")).expect("prov: msg must be UTF-8");
+            let n = v.get("n").and_then(|x| x.as_u64()).unwrap_or(0);
+            let dir = scratch.join(format!("prov{}", n));
+            let _ = std::fs::create_dir_all(&dir);
+            let shared = gpa::shared_state::SharedState::start_all();
+            let status = shared.get_agent_status_shared_state();
+            let (s1, m1) = (status.clone(), msg.clone());
+            let set = guarded(async move { s1.set_module_status_message(m1, AgentStatusModule::KeyKeeper).await.ok() }).await;
+            let set_panics = take_panics();
+            let (ps, st, d) = (shared.get_provision_shared_state(), status.clone(), dir.clone());
+            let done = guarded(async move { gpa::provision::provision_timeup(Some(d), ps, st).await }).await;
+            let files: Vec<String> = std::fs::read_dir(&dir).map(|rd| rd.filter_map(|e| e.ok()).map(|e| e.file_name().to_string_lossy().to_string()).collect()).unwrap_or_default();
+            shared.cancel_cancellation_token();
+            json!({"id": id, "op": op, "set_panicked": set.is_none(), "panicked": done.is_none(), "files": files,
+                   "set_panics": set_panics, "panics": take_panics()})
         }
         "events" => {
             let evs = sync_events(&scratch.join("events"), PUSHED.load(Ordering::SeqCst)).await;
